@@ -123,7 +123,7 @@ func HarnessC14Run(a []int) {
 		}
 		readerDone = true
 	}
-	if scenario != 2 {
+	if scenario != 2 && scenario != 3 {
 		go reader()
 	}
 	sent := 0
@@ -157,6 +157,21 @@ func HarnessC14Run(a []int) {
 		close(sock.in)
 		verifQuiesce()
 		verifAssert("C14.run.sends_return", sent == 2)
+	case 3: // Close while telegrams are parked; the reader arrives only afterwards: its range loop must end
+		sock.in <- &knxnet.RoutingInd{Payload: x1}
+		sock.in <- &knxnet.RoutingInd{Payload: x2}
+		verifQuiesce()
+		close(sock.in)
+		verifQuiesce()
+		go reader()
+		verifQuiesce()
+		verifAssert("C14.run.serve_ends", serveDone)
+		verifAssert("C14.run.inbound_closed", readerDone)
+		for i, m := range got {
+			verifAssert("C14.run.parked_in_order", (i == 0 && m == x1) || (i == 1 && m == x2))
+		}
+		verifCover("C14.run.end")
+		return
 	case 2: // reader absent during the traffic, arrives late, then Close
 		sock.in <- &knxnet.RoutingInd{Payload: x1}
 		sock.in <- &knxnet.RoutingInd{Payload: x2}
